@@ -213,7 +213,25 @@ Definition verdict_all := verdict_with fl_all.
 Definition verdict_C01 := verdict_with fl_C01.
 Definition verdict_C02 := verdict_with fl_C02.
 Definition verdict_C03 := verdict_with fl_C03.
-Definition verdict_C04 := verdict_with fl_C04.
+(* C04 enumerates every crash point, also those where a sibling callback of the same group exists
+   (then which siblings ran before the failure is left open): from such an operation on, only the
+   escaping exception and the stored state are compared, and later operations not at all *)
+Definition fl_C04_weak := {| f_val := false; f_exn := true; f_field := true; f_allowed := false;
+                             f_ids := false; f_ctx := false; f_nested := false; f_depth := false |}.
+Fixpoint c04_walk (l1 : list obs) (l2 : list iobs) : nat :=
+  match l1, l2 with
+  | [], [] => 0
+  | m :: r, i :: s =>
+      match o_out m with
+      | RFuel => 9
+      | _ => if o_amb m && o_ambc m then 0   (* a raising guard next to other guards: whether it is
+                                                 reached at all is left open (short-circuit) *)
+             else if o_amb m then (if obs_eqb fl_C04_weak m i then 0 else 2)
+             else if obs_eqb fl_C04 m i then c04_walk r s else 2
+      end
+  | _, _ => 2
+  end.
+Definition verdict_C04 (c : case) : nat := c04_walk (run_scenario (fst c)) (snd c).
 Definition verdict_C11 := verdict_with fl_C11.
 Definition verdict_C14 := verdict_with fl_C14.
 
